@@ -605,7 +605,7 @@ fn main() {
 
     // ----------------------------------------------------------------- C02
     if prop == "C02" {
-        let hi = if thorough { 8 } else { 6 };
+        let hi = if thorough { 8 } else { 7 };
         let pats = patterns(1, hi);
         r.section("single_exh", pats.len() as u64, |k, _rng, acc| {
             single_exhaustive(acc, &pats[k as usize], None, false, u64::MAX);
@@ -935,7 +935,7 @@ fn main() {
         vec![
             ("exhaustive", J::B(true)),
             ("exhaustive_note", J::s(exhaustive_note)),
-            ("length_bound", J::u(if thorough { 8 } else { 6 })),
+            ("length_bound", J::u(if thorough { 8 } else { 7 })),
         ],
     );
     let _ = keys;
